@@ -245,6 +245,17 @@ func cmdCheck(args []string) int {
 		report("static", "writers: "+v, "violated", "?", "field written outside the functions that preserve its invariant", "")
 		failed = append(failed, oblRec{"static", "writers", "violated", "scan", "?", v})
 	}
+	for _, sc := range pc.Static {
+		if sc == "jsontags" {
+			n, vs := eng.checkJSONTags()
+			total += n
+			discharged += n - len(vs)
+			for _, v := range vs {
+				report("static", "jsontags: "+v, "violated", "?", "struct tag contract", "")
+				failed = append(failed, oblRec{"static", "jsontags", "violated", "go/types", "?", v})
+			}
+		}
+	}
 	for _, v := range vacuous {
 		total++
 		report("vacuity", v, "vacuous", "?", "a return became unreachable: contradictory assumptions", "")
